@@ -36,6 +36,7 @@ fn families(t: Tier) -> Vec<(&'static str, u64)> {
         ("readme", t.n(800, 30_000)),
         ("chain", t.n(120, 3_000)),
         ("fanin", t.n(300, 10_000)),
+        ("dag-toggles", t.n(6_000, 200_000)),
     ]
 }
 fn floors(_t: Tier) -> Vec<(&'static str, u64)> {
@@ -47,7 +48,8 @@ pub struct Variant {
     /// per node, per operand: 0 direct, 1 temporary clone, 2 clone of a clone
     pub clone_arg: Vec<Vec<u8>>,
     pub drop_after_last_use: Vec<bool>,
-    /// 0: backward on the result; 1: on a clone of it; 2: on a clone after dropping the original handle
+    /// 0: backward on the result; 1: on a clone of it; 2: on a clone after dropping the original handle;
+    /// 3: on a clone taken while the result's tracking was switched off by reference (and switched back on afterwards)
     pub pass_from: u8,
     /// 0: read gradients through the original handles; 1: through clones taken before the pass; 2: after the pass
     pub read_via: u8,
@@ -78,7 +80,15 @@ impl Variant {
                 *d = r.chance(1, 2);
             }
         }
-        v.pass_from = r.below(3) as u8;
+        v.pass_from = r.below(4) as u8;
+        // a handle that a later statement toggles by reference must stay alive (dropping it would change the program)
+        for nd in &p.nodes {
+            if let Node::Op { pre, .. } = nd {
+                for (h, _) in pre {
+                    v.drop_after_last_use[*h] = false;
+                }
+            }
+        }
         v.read_via = r.below(3) as u8;
         v
     }
@@ -197,6 +207,17 @@ pub fn run_variant(p: &Program, v: &Variant, seed: Option<(&[usize], &[f64])>, u
                 drop(c);
                 root_reader = h[root].as_ref().unwrap().clone();
             }
+            3 => {
+                let orig = h[root].as_ref().unwrap();
+                let was = orig.stop_tracking();
+                let c = orig.clone();
+                if was {
+                    orig.start_tracking();
+                }
+                c.backward(seed_arr);
+                drop(c);
+                root_reader = h[root].as_ref().unwrap().clone();
+            }
             _ => {
                 let c = h[root].as_ref().unwrap().clone();
                 h[root] = None;
@@ -240,7 +261,17 @@ pub fn run_variant(p: &Program, v: &Variant, seed: Option<(&[usize], &[f64])>, u
 }
 
 pub fn run_case(ctx: &mut Ctx, fam: &str, k: u64, r: &mut Rng) {
-    let p = c01::gen(ctx, fam, k, r);
+    // dag-toggles: programs whose handles are toggled by reference / by value between uses and whose results may be
+    // untracked(); no reference is needed for the relation, so the root is not restricted either
+    let p = if fam == "dag-toggles" {
+        let mut cfg = GenCfg::exact();
+        cfg.toggles = true;
+        cfg.untracked_eighths = 2;
+        cfg.max_ops = 9;
+        gen_program(r, &cfg)
+    } else {
+        c01::gen(ctx, fam, k, r)
+    };
     let rr = match eval_ref_plain(&p) {
         Some(x) => x,
         None => return,
